@@ -100,6 +100,137 @@ PROPS = {
     },
 }
 
+T_OS = "T-OS: os.path.*, os.makedirs, os.walk, os.scandir, open/print behave as the contracts in contracts/c_external.py say"
+T_LIB = "T-LIB: confuse, argparse, pathspec (gitwildmatch), docutils, cmake behave as documented"
+TREE_RULE = ("bounded: generated directory trees x random option combinations + fixed multi-step scenarios through the real "
+             "cminx.main, compared with independent oracles (expected page set, toctrees, exclusions, byte equality across "
+             "runs); distinct = cases with different tree/options; evaluations = cases + native contract evaluations")
+PROPS.update({
+    "C04": {
+        "level": "other", "drivers": ["drv_layout"],
+        "trusted_base": [T_PY, T_SMT, T_ANTLR, T_STRLIB],
+        "assumptions": _AGG_ASSUME + [
+            "lexer half ASSUMED (T-ANTLR): inserting/removing Space, Newline, Line_comment, Bracket_comment tokens leaves the "
+            "sequence of non-skipped tokens unchanged - no contract on a CMinx function expresses it; the bounded "
+            "metamorphic driver stands in for it",
+            "Python half proved: every aggregator contract is phrased over lname(ctx) = lower(name), token texts and the "
+            "cleaned doc only (ctx.start.line / getText() feed only dropped log text); lemmas canon_* prove that the "
+            "cleaned text does not depend on the block indentation w"],
+        "explanation": "proof of the Python half (contracts tagged C04 + lemmas canon_open/_open_text/_empty/_text/_close/"
+                       "_indent: the result is independent of the indentation and of the command-name case) + assumed lexer "
+                       "half + labelled bounded metamorphic check (layout variants must give byte-identical reST)",
+        "bounded_rule": "bounded: generated and sample modules x 6 layout-variant kinds; distinct = (module, variant kind)",
+    },
+    "C06": {
+        "level": "other", "drivers": ["drv_faults"],
+        "trusted_base": [T_PY, T_SMT, T_ANTLR],
+        "assumptions": [A_INT, A_TYPES,
+                        "ASSUMED (T-ANTLR): the lexer/parser call every registered listener on every error; with the bail "
+                        "strategy an error ends cmake_file() with an exception; which inputs are lexer/parser errors is a "
+                        "fact about the generated grammar tables",
+                        "I/O errors (OSError) are not modelled (A4)"],
+        "explanation": "proved: ParserErrorListener.syntaxError never returns normally; Documenter.__init__ attaches a raising "
+                       "listener to BOTH lexer and parser, installs the bail strategy and decodes as UTF-8 (wiring obligations "
+                       "over ghost observers); Documenter.process and document_single_file swallow nothing and write/print only "
+                       "after process() returned (path obligations).  assumed: ANTLR error reporting.  bounded stand-in: "
+                       "fault kind x position through the real cminx.main (single files and recursive directory runs)",
+        "bounded_rule": "bounded: small valid modules x 8 fault kinds x command-boundary positions + 15 directory runs; "
+                        "distinct = (module, fault, position)",
+    },
+    "C07": {
+        "level": "other", "drivers": ["drv_docutils", "drv_rstwriter"],
+        "trusted_base": [T_PY, T_SMT, T_LIB],
+        "assumptions": [A_INT, A_TYPES, A_TERM,
+                        "reST model (stated axiom, audited by hand): a directive's content is the maximal run of following lines "
+                        "that are blank or indented by at least the directive's indent + 3",
+                        "argument values and field texts contain no line break (property precondition); a multi-line Field text is "
+                        "not re-indented",
+                        "docutils acceptance itself is third-party: bounded stand-in"],
+        "explanation": "proved: the indentation/ordering discipline of rstwriter.py (C20 contracts) and, for every renderer, "
+                       "which elements are children of which directive (postconditions of all *.process: notes, warnings, fields, "
+                       "options, doc text and members are appended to the entry's own directive, which is one top-level "
+                       "directive; process_docs: title, then module directive, then entries in order).  bounded: docutils parse "
+                       "of generated modules with stub directives (no message >= ERROR, top-level shape)",
+        "bounded_rule": "bounded: generated modules with valid-reST doc texts of 8 shapes x all entry kinds, class nesting <= 3; "
+                        "distinct = generated module",
+    },
+    "C12": {
+        "level": "proof", "drivers": ["drv_pipeline", "drv_tree"],
+        "trusted_base": [T_PY, T_SMT, T_ANTLR, T_STRLIB, T_OS],
+        "assumptions": _AGG_ASSUME + [
+            "re.sub('\\.cmake$', '', s) is kept uninterpreted (A3): 'drops the .cmake extension' is its documented meaning",
+            "the file's relative path differs from the separator string (precondition of document_single_file)",
+            "default prefix = name of the input directory and injectivity of page names for different relative paths: "
+            "document()'s prefix computation is covered by the bounded tree driver only (document() is not under contract)",
+            "split/join inverse for the module doccomment's first line (T-STRLIB)"],
+        "bounded_rule": BOUNDED_RULE,
+    },
+    "C13": {
+        "level": "exploration", "drivers": ["drv_tree"],
+        "trusted_base": [T_OS, T_LIB],
+        "assumptions": ["document() (the os.walk loop) is NOT under contract yet: this property is decided by the bounded "
+                        "tree driver only; document_single_file and write_to_file (where each page goes) are proved",
+                        "the oracle re-implements the traversal rules from the property text and uses pathspec itself for "
+                        "pattern matching"],
+        "bounded_rule": TREE_RULE,
+    },
+    "C14": {
+        "level": "exploration", "drivers": ["drv_tree"],
+        "trusted_base": [T_OS, T_LIB],
+        "assumptions": ["document() is NOT under contract yet: decided by the bounded tree driver; Directive.to_text/Option "
+                        "serialisation is proved (C20)"],
+        "bounded_rule": TREE_RULE,
+    },
+    "C15": {
+        "level": "exploration", "drivers": ["drv_tree"],
+        "trusted_base": [T_OS, T_LIB],
+        "assumptions": ["document() is NOT under contract yet: decided by the bounded tree driver",
+                        "gitignore semantics of a pattern is pathspec's (T-LIB); patterns are applied to absolute paths; no "
+                        "pattern matches a path component above the input directory (except in the dedicated scenario)"],
+        "bounded_rule": TREE_RULE,
+    },
+    "C16": {
+        "level": "exploration", "drivers": ["drv_settings"],
+        "trusted_base": [T_LIB],
+        "assumptions": ["main() is almost entirely calls into argparse and confuse (third-party): no contract on a CMinx function "
+                        "decides the layering; the driver enumerates the property's own finite quantifier for single options "
+                        "(every option x every subset of sources) through the real main()"],
+        "bounded_rule": "exhaustive over (option, subset of setting sources) with distinct values per source; plus exclude-filter "
+                        "union over all subsets, output-directory resolution modes, wrong-type values; distinct = cases",
+    },
+    "C17": {
+        "level": "exploration", "drivers": ["drv_tree", "drv_pipeline"],
+        "trusted_base": [T_OS, T_LIB],
+        "assumptions": ["functional postconditions (result = spec(content, relative path, settings)) are proved for the "
+                        "aggregator, renderers, writer and document_single_file (C01-C03, C09-C12, C20) and rendering is proved "
+                        "not to modify entries or anything older than the Documenter (frames); document() and main() are not "
+                        "under contract: the run-level statement is decided by the bounded tree driver (moved tree, other cwd, "
+                        "several inputs in one run, hash seeds)"],
+        "bounded_rule": TREE_RULE,
+    },
+    "C18": {
+        "level": "other", "drivers": ["drv_tree"],
+        "trusted_base": [T_PY, T_SMT, T_OS],
+        "assumptions": [A_INT, A_TYPES, "I/O errors are not modelled",
+                        "ghost file system: os.makedirs(p) creates p and ancestors only, open(p,'w').write writes p only, print "
+                        "writes one line to stdout (T-OS)",
+                        "document() is not under contract: that every path it hands to makedirs/write_to_file lies below the "
+                        "output directory is covered by the bounded tree driver"],
+        "explanation": "proved (effect contracts over the ghost object WORLD): RSTWriter.write_to_file writes exactly one file, the "
+                       "given path, holding to_text(); document_single_file with an output directory makes exactly that directory "
+                       "and writes exactly one page at out/dirname(rel)/stem.rst and prints nothing; without one it writes nothing "
+                       "and prints exactly str(page)+newline.  bounded: snapshots of a sandbox tree before/after, stdout vs -o run",
+        "bounded_rule": TREE_RULE,
+    },
+    "C19": {
+        "level": "exploration", "drivers": ["drv_cmake"],
+        "trusted_base": [T_LIB],
+        "assumptions": ["no deductive verifier or VC generator for CMake script exists here: the contract of cminx_gen_rst is "
+                        "stated on the real function and checked at run time by the real cmake -P"],
+        "bounded_rule": "enumerated: 7 inputs x up to 8 extra-argument lists; distinct = (input, extra arguments)",
+    },
+})
+
 MANIFEST_TEXT = {
     "C20": {
         "text": "Every public function of rstwriter.py that the property quantifies over (element builders, the writer API, "
@@ -126,6 +257,22 @@ MANIFEST_TEXT.update({
     "C09": {"text": "Class stack push/pop, registration in the innermost enclosing class, attachment of members/constructors/attributes to the class on top of the stack and to no other (conditional frames), parameter names from the claiming definition after the member strip pattern, macro flag; renderers: class directive with bases, labelled groups in source order, member signature, position-wise :param:/:type: fields, attribute default option.", "design_ref": "DESIGN.md 4 C09", "note": _NOTE, "technique": TECH},
     "C10": {"text": "process_set / process_option postconditions (type by value count, default as written, quotes removed from a single quoted value, list joined by single spaces, option help/default/bool) and the two renderers (data directive, fields, option note, OFF when omitted) for all argument lists.", "design_ref": "DESIGN.md 4 C10", "note": _NOTE, "technique": TECH},
     "C11": {"text": "The three test processors are proved against recursive specs (argument after the last NAME, EXPECTFAIL iff present, add_test signature = all arguments except the NAME keyword and the name BY POSITION) with loop invariants; lemmas tie these to the statement on its domain; renderers proved to show name, EXPECTFAIL and the matching warning.", "design_ref": "DESIGN.md 4 C11", "note": _NOTE, "technique": TECH},
+})
+
+_NOTE_B = ("bounded stand-in, labelled as such and never counted as proof; trusted: third-party libraries and the OS; "
+           "what is proved around it is listed in the evidence file")
+MANIFEST_TEXT.update({
+    "C04": {"text": "Python half proved (aggregator contracts are functions of the lower-cased name, token texts and the cleaned doc; lemmas show the cleaned text is independent of the block indentation); the lexer half (skipped tokens) is a property of the generated ATN under the ANTLR interpreter: assumed, with a bounded metamorphic stand-in (6 layout-variant kinds must give byte-identical reST).", "design_ref": "DESIGN.md 4 C04", "note": _NOTE, "technique": TECH + "; metamorphic bounded stand-in for the lexer half"},
+    "C06": {"text": "Proved: the error listener never returns, the Documenter wires a raising listener to lexer AND parser plus the bail strategy, nothing on the path main->...->callbacks swallows an exception, a page is written/printed only after processing returned. Assumed: ANTLR reports every error to listeners. Bounded stand-in: fault injection through the real main.", "design_ref": "DESIGN.md 4 C06", "note": _NOTE, "technique": TECH + "; fault-injection bounded stand-in"},
+    "C07": {"text": "Proved: which elements each renderer nests under which directive and the writer's indentation/ordering discipline; stated axiom on reST directive content; docutils acceptance is bounded (generated modules parsed with stub directives).", "design_ref": "DESIGN.md 4 C07", "note": _NOTE, "technique": TECH + "; docutils bounded stand-in"},
+    "C12": {"text": "Proved: heading = header character repeated to the title's length (loop invariant + lemma), title setter re-frames; document_single_file hands the Documenter title = page_name(prefix, sep, rel, keep_titles) and module = page_name(..., keep_modules) with rel = relative path (lone file: base name); process_docs puts exactly one module directive first and lets a named @module doccomment set title and module name; enterDocumented_module stores name and text in one module entry and touches nothing else. The default prefix computed in document() is covered by the bounded tree driver.", "design_ref": "DESIGN.md 4 C12", "note": _NOTE, "technique": TECH},
+    "C13": {"text": "Bounded: generated trees x options through the real main against an independent oracle of the page set, plus per-file equality with the single-file run; where each page goes is proved (document_single_file, write_to_file). document() itself is not yet under contract.", "design_ref": "DESIGN.md 4 C13", "note": _NOTE_B, "technique": "bounded run-time check with an independent oracle (contract of document() not yet discharged)"},
+    "C14": {"text": "Bounded: every index.rst of generated trees compared with the oracle (entries exactly once, closed, complete, titles).", "design_ref": "DESIGN.md 4 C14", "note": _NOTE_B, "technique": "bounded run-time check with an independent oracle (contract of document() not yet discharged)"},
+    "C15": {"text": "Bounded: pattern sets (several siblings matching, all files of a directory matching, absolute paths, relative input) against pathspec applied independently.", "design_ref": "DESIGN.md 4 C15", "note": _NOTE_B, "technique": "bounded run-time check with an independent oracle (contract of document() not yet discharged)"},
+    "C16": {"text": "The layering is decided inside confuse/argparse; the driver enumerates every option x every subset of sources through the real main (exhaustive for single options) and checks union of exclude filters, output-directory resolution and type rejection.", "design_ref": "DESIGN.md 4 C16", "note": _NOTE_B, "technique": "exhaustive run-time enumeration over the property's finite quantifier (third-party libraries decide it)"},
+    "C17": {"text": "Functional postconditions and frames are proved per function (what each page contains is a function of content, relative path and settings; rendering modifies nothing older than the Documenter); the run-level statement is bounded: byte equality across moved trees, working directories, several inputs per run and hash seeds.", "design_ref": "DESIGN.md 4 C17", "note": _NOTE_B, "technique": "bounded run-time check (byte equality across runs) on top of proved functional contracts"},
+    "C18": {"text": "Effect contracts over a ghost file system / stdout are proved for write_to_file and document_single_file (exactly one page, at the output-relative path, or exactly one print); document()'s paths are covered by sandbox snapshots in the bounded tree driver.", "design_ref": "DESIGN.md 4 C18", "note": _NOTE, "technique": TECH + "; sandbox-snapshot bounded stand-in for document()"},
+    "C19": {"text": "Run-time contract on the real cminx_gen_rst through the real cmake -P: argv, output tree equality with the direct CLI run, fatal failure.", "design_ref": "DESIGN.md 4 C19", "note": _NOTE_B, "technique": "bounded run-time contract check of the CMake function (no verifier for CMake script)"},
 })
 
 NOT_APPLICABLE = [
